@@ -90,6 +90,12 @@ package virtualtable
 //@   pure
 //@   ensures implies(result, uf("safeName", bool, name))
 //@ end
+// the validator's string-level meaning, decided by a bounded stand-in only
+//@ func IsValidIndexName @strings
+//@   props C19
+//@   note no proof obligations: this view only attaches the bounded stand-in (the primary contract above is the ASSUMED meaning the C19 proofs use)
+//@   bounded virtualtable/validindexname_test.go Test_Bounded_IsValidIndexName every string of up to 4 bytes over { / \ NUL LF CR . a - }, alone and at the start / middle / end of a longer plain name, and names around the length limit (about 18700 names): accepted exactly when not empty, not . or .., within the limit and free of / \ NUL LF CR at every position
+//@ end
 //@ func AddVirtualTable
 //@   props C19
 //@   assumecalleerequires
